@@ -54,11 +54,16 @@ Print Assumptions C19_stored_unredacted.
 
 (* Kubernetes work units: secret_kube_config and secret_kube_pod are blanked in everything a status
    or list reply is built from *)
-Theorem C19_kube_view_hides : forall r,
-  k_config (kube_view r) = [] /\ k_pod (kube_view r) = [] /\
-  k_namespace (kube_view r) = k_namespace r /\ k_image (kube_view r) = k_image r.
+Theorem C19_kube_view_hides : forall fl r,
+  k_config (kube_view fl r) = [] /\ k_pod (kube_view fl r) = [] /\
+  k_namespace (kube_view fl r) = k_namespace r /\ k_image (kube_view fl r) = k_image r.
 Proof. exact kube_view_hides. Qed.
 Print Assumptions C19_kube_view_hides.
+
+(* ... for every setting of the work type's permission flags: the blanking depends on none of them *)
+Theorem C19_kube_view_flag_independent : forall fl fl' r, kube_view fl r = kube_view fl' r.
+Proof. exact kube_view_flag_independent. Qed.
+Print Assumptions C19_kube_view_flag_independent.
 
 (* non-vacuity: an accepted submission with two secret and two other parameters; status, list
    and list-one replies before and after a restart and a cancel all show the two others *)
